@@ -81,7 +81,17 @@ def run_scenario(cfg, chooser, max_steps=20000):
                         return items[self.i - 1]
 
                 try:
-                    await ch.send_from(Src())
+                    if spec["mode"] == "send_from_close":
+                        # the sender itself closes the channel behind its last item; there is no separate closer
+                        await ch.send_from(Src(), close=True)
+                        if S["close_seq"] is None:
+                            S["blocked_at_close"] = len(S["blocked"])
+                            S["inflight_at_close"] = len(S["sent"]) - len(S["recv"])
+                            if len(S["blocked"]) > max(S["inflight_at_close"], 0) + 1:
+                                S["nontrivial"] = True
+                            S["close_seq"] = tick()
+                    else:
+                        await ch.send_from(Src())
                 except ChannelClosed:
                     S["send_err"].append((None, tick()))
 
@@ -121,6 +131,8 @@ def run_scenario(cfg, chooser, max_steps=20000):
                 S["rx_end"][i] = f"error:{type(e).__name__}:{e}"
 
         async def closer():
+            if any(sp["mode"] == "send_from_close" for sp in cfg["senders"]):
+                return
             if cfg.get("closer_vdelay"):
                 await asyncio.sleep(cfg["closer_vdelay"])
             for _ in range(cfg.get("closer_delay", 0)):
@@ -214,7 +226,8 @@ def run_scenario(cfg, chooser, max_steps=20000):
         for i, d in enumerate(q1["rx_done"]):
             if not d:
                 out.append(("receiver_stranded_after_close", f"receiver {i} ({cfg['receivers'][i]['mode']}) still pending at quiescence"))
-    else:
+    elif not any(sp["mode"] == "send_from_close" for sp in cfg["senders"]):
+        # (a sender that closes behind its last item never gets there when nobody takes its items: nothing to check)
         out.append(("close_never_happened", "harness: closer did not run"))
     # I5
     if later not in ("ChannelClosed", "not_attempted"):
@@ -250,6 +263,8 @@ def cfg_class(cfg):
         parts.append("timeout")
     if any(s["mode"] == "send_from" for s in cfg["senders"]):
         parts.append("send_from")
+    if any(s["mode"] == "send_from_close" for s in cfg["senders"]):
+        parts.append("send_from_close")
     return "|".join(parts)
 
 
@@ -261,6 +276,8 @@ SMALL_CONFIGS = [
     {"name": "1s2i_2rx_cancel", "senders": [{"items": 2, "mode": "send"}], "receivers": [{"mode": "receive"}, {"mode": "receive"}], "cancel": {"target": 0, "delay": 0}},
     {"name": "1s1i_1rx_iter_cancel", "senders": [{"items": 1, "mode": "send"}], "receivers": [{"mode": "iter"}, {"mode": "receive"}], "cancel": {"target": 0, "delay": 1}},
     {"name": "sendfrom2_2rx", "senders": [{"items": 2, "mode": "send_from"}], "receivers": [{"mode": "receive"}, {"mode": "iter"}]},
+    {"name": "sendfrom_close_1i_3rx", "senders": [{"items": 1, "mode": "send_from_close"}], "receivers": [{"mode": "receive"}, {"mode": "iter"}, {"mode": "receive"}]},
+    {"name": "sendfrom_close_2i_2rx_bounded1", "senders": [{"items": 2, "mode": "send_from_close"}], "receivers": [{"mode": "iter"}, {"mode": "receive"}], "buffer": 1},
     {"name": "3rx_bounded1_close_only", "senders": [], "receivers": [{"mode": "receive"}, {"mode": "iter"}, {"mode": "receive"}], "buffer": 1},
     {"name": "2rx_bounded1_1s1i", "senders": [{"items": 1, "mode": "send"}], "receivers": [{"mode": "receive"}, {"mode": "receive"}], "buffer": 1},
     {"name": "timeout_then_items", "senders": [{"items": 2, "mode": "send", "delay": 7}], "receivers": [{"mode": "receive", "timeout": 5}, {"mode": "receive"}], "closer_vdelay": 10},
@@ -335,7 +352,7 @@ def targets(ctx):
     @st.composite
     def cfg_strat(draw):
         ns = draw(st.integers(1, 2))
-        senders = [{"items": draw(st.integers(1, 3)), "mode": draw(st.sampled_from(["send", "send", "send_from"]))} for _ in range(ns)]
+        senders = [{"items": draw(st.integers(1, 3)), "mode": draw(st.sampled_from(["send", "send", "send", "send_from", "send_from_close"]))} for _ in range(ns)]
         nr = draw(st.integers(1, 3))
         receivers = [{"mode": draw(st.sampled_from(["receive", "iter"]))} for _ in range(nr)]
         cfg = {"senders": senders, "receivers": receivers, "buffer": draw(st.sampled_from([0, 0, 1, 2])),
